@@ -288,11 +288,41 @@ func runPs(c psCase) string {
 
 type fileCase struct {
 	self  int
-	lines []string // tokens
+	lines []string // tokens, each with an optional line-end suffix ~r ("\r\n") or ~rr ("\r\r\n")
+	nonl  bool     // the last line is not terminated by "\n"
+	bom   bool     // the file starts with a UTF-8 byte order mark
+}
+
+func (c fileCase) shape() string {
+	s := "nl"
+	if c.nonl {
+		s = "nonl"
+	}
+	if c.bom {
+		if c.nonl {
+			return "bom-nonl"
+		}
+		return "bom"
+	}
+	return s
 }
 
 func (c fileCase) input() string {
-	return fmt.Sprintf("C14 psfile %d %s", c.self, joinOr(c.lines, ","))
+	return fmt.Sprintf("C14 psfile %d %s %s", c.self, joinOr(c.lines, ","), c.shape())
+}
+
+// splitLineTok separates the line-end suffix of a line token.
+func splitLineTok(tok string) (string, int, bool) {
+	if i := strings.Index(tok, "~"); i >= 0 {
+		switch tok[i+1:] {
+		case "r":
+			return tok[:i], 1, true
+		case "rr":
+			return tok[:i], 2, true
+		}
+		return tok, 0, false
+	}
+	return tok, 0, true
 }
 
 // a line of exactly 64 KiB that starts like an address
@@ -347,10 +377,23 @@ func lineText(tok string) (string, bool) {
 }
 
 func parseFileCase(f []string) (fileCase, bool) {
-	if len(f) != 2 {
+	if len(f) != 2 && len(f) != 3 {
 		return fileCase{}, false
 	}
 	var c fileCase
+	if len(f) == 3 {
+		switch f[2] {
+		case "nl":
+		case "nonl":
+			c.nonl = true
+		case "bom":
+			c.bom = true
+		case "bom-nonl":
+			c.bom, c.nonl = true, true
+		default:
+			return c, false
+		}
+	}
 	var err error
 	c.self, err = strconv.Atoi(f[0])
 	if err != nil || c.self < 0 || c.self >= nPs || c.self%2 != 0 {
@@ -360,7 +403,11 @@ func parseFileCase(f []string) (fileCase, bool) {
 		c.lines = strings.Split(f[1], ",")
 	}
 	for _, l := range c.lines {
-		if _, ok := lineText(l); !ok {
+		t, _, ok := splitLineTok(l)
+		if !ok {
+			return c, false
+		}
+		if _, ok := lineText(t); !ok {
 			return c, false
 		}
 	}
@@ -372,10 +419,17 @@ func runFile(c fileCase) string {
 	defer os.RemoveAll(dir)
 	path := filepath.Join(dir, "peerstore")
 	var sb strings.Builder
-	for _, l := range c.lines {
-		t, _ := lineText(l)
+	if c.bom {
+		sb.WriteString("\xef\xbb\xbf")
+	}
+	for i, l := range c.lines {
+		tok, cr, _ := splitLineTok(l)
+		t, _ := lineText(tok)
 		sb.WriteString(t)
-		sb.WriteString("\n")
+		sb.WriteString(strings.Repeat("\r", cr))
+		if !(c.nonl && i == len(c.lines)-1) {
+			sb.WriteString("\n")
+		}
 	}
 	if err := os.WriteFile(path, []byte(sb.String()), 0600); err != nil {
 		return "# inconclusive write " + c.input()
@@ -508,6 +562,29 @@ func genFileCase(r *common.Rng, k, total int) fileCase {
 				c.lines = append(c.lines, "x"+strconv.Itoa(r.Intn(len(slashBad))))
 			}
 		}
+	}
+	// the shape of the file: line ends, final newline, byte order mark
+	switch r.Intn(8) {
+	case 0, 1, 2, 3: // unix
+	case 4: // dos
+		for i := range c.lines {
+			c.lines[i] += "~r"
+		}
+	default: // mixed, with an occasional doubled "\r"
+		for i := range c.lines {
+			switch x := r.Intn(20); {
+			case x < 8:
+				c.lines[i] += "~r"
+			case x == 8:
+				c.lines[i] += "~rr"
+			}
+		}
+	}
+	c.nonl = r.Chance(2, 5)
+	c.bom = r.Chance(1, 20)
+	if c.nonl && r.Chance(1, 3) { // a last line of a chosen kind
+		last := []string{"E", "L", "x1", "n0", "b4", fmt.Sprintf("f%dp%d", longAddrIdx, r.Intn(nPs)), fmt.Sprintf("f5p%d~r", r.Intn(nPs))}
+		c.lines = append(c.lines, last[r.Intn(len(last))])
 	}
 	return c
 }
